@@ -93,7 +93,7 @@ func modelEffects(full string) []string {
 	switch full {
 	case "(*sync.Mutex).Lock", "(*sync.Mutex).Unlock", "(*sync.RWMutex).Lock", "(*sync.RWMutex).Unlock",
 		"(*sync.RWMutex).RLock", "(*sync.RWMutex).RUnlock":
-		return []string{"G_held"}
+		return []string{"G_held", "G_nheld"}
 	case "(*sync.Cond).Broadcast", "(*sync.Cond).Signal":
 		return []string{"G_dirty"}
 	}
@@ -128,7 +128,9 @@ func (vc *VC) modelCall(fr *Frame, st *State, callee *ssa.Function, args []strin
 		h := vc.get(st, "G_held")
 		vc.lockObl(fr, st, "lock", "lock is not already held by this thread at Lock (self-deadlock)", fmt.Sprintf("(= (select %s %s) 0)", h, args[0]), pos)
 		vc.set(st, "G_held", fmt.Sprintf("(store %s %s 1)", h, args[0]))
-		vc.acquire(fr, st)
+		vc.svDeclare("G_nheld", "Int")
+		vc.set(st, "G_nheld", fmt.Sprintf("(+ %s 1)", vc.get(st, "G_nheld")))
+		vc.acquire(fr, st, vc.eng.lockClassOf(argVal(argVals, 0)))
 		return nil, true
 	case "(*sync.Mutex).Unlock", "(*sync.RWMutex).Unlock":
 		vc.noteLock(args[0])
@@ -136,6 +138,8 @@ func (vc *VC) modelCall(fr *Frame, st *State, callee *ssa.Function, args []strin
 		h := vc.get(st, "G_held")
 		vc.lockObl(fr, st, "lock", "lock is held at Unlock", fmt.Sprintf("(= (select %s %s) 1)", h, args[0]), pos)
 		vc.set(st, "G_held", fmt.Sprintf("(store %s %s 0)", h, args[0]))
+		vc.svDeclare("G_nheld", "Int")
+		vc.set(st, "G_nheld", fmt.Sprintf("(- %s 1)", vc.get(st, "G_nheld")))
 		return nil, true
 	case "(*sync.RWMutex).RLock":
 		vc.noteLock(args[0])
@@ -143,7 +147,7 @@ func (vc *VC) modelCall(fr *Frame, st *State, callee *ssa.Function, args []strin
 		h := vc.get(st, "G_held")
 		vc.lockObl(fr, st, "lock", "lock is not already held by this thread at RLock", fmt.Sprintf("(= (select %s %s) 0)", h, args[0]), pos)
 		vc.set(st, "G_held", fmt.Sprintf("(store %s %s 2)", h, args[0]))
-		vc.acquire(fr, st)
+		vc.acquire(fr, st, vc.eng.lockClassOf(argVal(argVals, 0)))
 		return nil, true
 	case "(*sync.RWMutex).RUnlock":
 		vc.noteLock(args[0])
@@ -156,7 +160,7 @@ func (vc *VC) modelCall(fr *Frame, st *State, callee *ssa.Function, args []strin
 		vc.svDeclare("G_held", "(Array Int Int)")
 		h := vc.get(st, "G_held")
 		vc.lockObl(fr, st, "lock", "the condition variable's lock is held at Wait", fmt.Sprintf("(= (select %s (cond_lock %s)) 1)", h, args[0]), pos)
-		vc.condWait(fr, st, pos)
+		vc.condWait(fr, st, vc.eng.lockClassOf(argVal(argVals, 0)), pos)
 		return nil, true
 	case "(*sync.Cond).Broadcast", "(*sync.Cond).Signal":
 		vc.svDeclare("G_dirty", "Bool")
@@ -311,9 +315,9 @@ func (vc *VC) lockObl(fr *Frame, st *State, kind, desc, goal string, pos token.P
 }
 
 // condWait: other threads run; every guarded field (and what hangs off it) may change.
-func (vc *VC) condWait(fr *Frame, st *State, pos token.Pos) {
+func (vc *VC) condWait(fr *Frame, st *State, class string, pos token.Pos) {
 	vc.assume("A-MON: while a thread waits on the condition variable, other threads change only fields declared guarded_by (and heaps of slices/maps stored in them); captured variables and locals of the waiting handler are stable")
-	for _, sv := range vc.eng.guardedSVs(vc) {
+	for _, sv := range vc.eng.guardedSVs(vc, class) {
 		vc.havocSV(st, sv)
 	}
 	vc.snapshotAtLock(st)
@@ -333,11 +337,24 @@ func (vc *VC) condWait(fr *Frame, st *State, pos token.Pos) {
 // acquire: on taking a lock the guarded fields hold whatever other threads left there
 // (interference happens while the lock is not held); the state at acquisition is remembered
 // for atlock() in specifications.
-func (vc *VC) acquire(fr *Frame, st *State) {
+func argVal(argVals []ssa.Value, i int) ssa.Value {
+	if i < len(argVals) {
+		return argVals[i]
+	}
+	return nil
+}
+
+func (vc *VC) acquire(fr *Frame, st *State, class string) {
 	if vc.role() != "writer" && vc.role() != "init" {
-		for _, sv := range vc.eng.guardedSVs(vc) {
+		for _, sv := range vc.eng.guardedSVs(vc, class) {
 			vc.havocSV(st, sv)
 		}
+	}
+	if vc.primaryClass == "" {
+		vc.primaryClass = class
+	}
+	if class != vc.primaryClass {
+		return
 	}
 	vc.snapshotAtLock(st)
 	if vc.fc != nil {
@@ -420,19 +437,28 @@ func (vc *VC) checkGuard(fr *Frame, st *State, structT types.Type, field int, ba
 		return
 	}
 	base := vc.value(fr, st, baseVal)
-	lockT, err := vc.guardLockTerm(fr, st, g, base, structT)
-	if err != nil {
-		vc.unsupportedf("guard of %s: %v", g.Struct, err)
-		return
-	}
 	fname := structT.Underlying().(*types.Struct).Field(field).Name()
 	vc.svDeclare("G_held", "(Array Int Int)")
 	h := vc.get(st, "G_held")
 	what := "read"
-	cond := fmt.Sprintf("(>= (select %s %s) 1)", h, lockT)
 	if write {
 		what = "write"
-		cond = fmt.Sprintf("(= (select %s %s) 1)", h, lockT)
+	}
+	var cond string
+	if strings.TrimSpace(g.Lock) == "*" {
+		// the object does not know its lock: some mutex must be held by this thread
+		vc.svDeclare("G_nheld", "Int")
+		cond = fmt.Sprintf("(>= %s 1)", vc.get(st, "G_nheld"))
+	} else {
+		lockT, err := vc.guardLockTerm(fr, st, g, base, structT)
+		if err != nil {
+			vc.unsupportedf("guard of %s: %v", g.Struct, err)
+			return
+		}
+		cond = fmt.Sprintf("(>= (select %s %s) 1)", h, lockT)
+		if write {
+			cond = fmt.Sprintf("(= (select %s %s) 1)", h, lockT)
+		}
 	}
 	// freshly allocated (unpublished) objects are exempt: base >= allocation clock at entry
 	cond = fmt.Sprintf("(or %s (>= %s %s))", cond, base, vc.allocBound(vc.entry))
